@@ -109,7 +109,18 @@ func l2Plan(prop, tier string) []l2Prog {
 			map[int]string{1: "succeeds", 2: "every argument expression evaluated exactly once", 3: "source order", 4: "before the first element call", 5: "Concurrency argument reaches the scheduler", 6: "every element processed"},
 			map[int]string{1: "two elements"})
 	}
+	f02ok := func() {
+		add("verifHarness_f02_ok", "Flow02 (multi-output task, two Results, Invoke sink, Concurrency(2)), all tasks succeed",
+			map[int]string{1: "flow returns nil", 2: "both Results hold the reference values", 3: "every task exactly once", 4: "parameters are the providers' values", 5: "Concurrency(2) reaches the scheduler", 6: "one job per task"},
+			map[int]string{1: "non-zero result"})
+	}
 	switch prop {
+	case "C20":
+		f01ok()
+		f01fail()
+		f02ok()
+	case "C03":
+		f02ok()
 	case "C15":
 		f06()
 		f07()
@@ -119,6 +130,7 @@ func l2Plan(prop, tier string) []l2Prog {
 		p05()
 	case "C02":
 		f01ok()
+		f02ok()
 	case "C04":
 		f01fail()
 		f03()
@@ -145,12 +157,46 @@ func l2Plan(prop, tier string) []l2Prog {
 	return ps
 }
 
-func l2Specs(prop, tier string) ([]*eng.KernelSpec, *eng.Corpus, error) {
+type corpora []*eng.Corpus
+
+func (cs corpora) Cleanup() {
+	for _, c := range cs {
+		c.Cleanup()
+	}
+}
+
+// l2Specs builds the kernel specs of a property; C20 runs its programs under
+// every generation mode.
+func l2Specs(prop, tier string) ([]*eng.KernelSpec, corpora, error) {
+	if prop != "C20" {
+		s, c, err := l2SpecsMode(prop, tier, "base", nil)
+		return s, corpora{c}, err
+	}
+	var all []*eng.KernelSpec
+	var cs corpora
+	for _, md := range []struct {
+		mode string
+		keep []string
+	}{{"base", nil}, {"source-map", nil}, {"modifier", []string{"api.go", "f01.go", "h01.go"}}} {
+		s, c, err := l2SpecsMode(prop, tier, md.mode, md.keep)
+		cs = append(cs, c)
+		if err != nil {
+			return nil, cs, err
+		}
+		for _, sp := range s {
+			sp.Name = "[genmode=" + md.mode + "] " + sp.Name
+		}
+		all = append(all, s...)
+	}
+	return all, cs, nil
+}
+
+func l2SpecsMode(prop, tier, mode string, keep []string) ([]*eng.KernelSpec, *eng.Corpus, error) {
 	progs := l2Plan(prop, tier)
 	if len(progs) == 0 {
 		return nil, nil, nil
 	}
-	corpus, err := eng.PrepareCorpus(filepath.Join(verifDir, "corpus"), []string{"flows"}, "base", false)
+	corpus, err := eng.PrepareCorpusFiles(filepath.Join(verifDir, "corpus"), []string{"flows"}, mode, false, keep)
 	if err != nil {
 		return nil, corpus, err
 	}
@@ -168,7 +214,7 @@ func l2Specs(prop, tier string) ([]*eng.KernelSpec, *eng.Corpus, error) {
 	for _, pr := range progs {
 		for pol, polName := range []string{"lowest-index-first", "highest-index-first"} {
 			specs = append(specs, &eng.KernelSpec{Prop: prop, Name: pr.name + " [job order: " + polName + "]", Fixed: map[int]int64{9000: int64(pol)}, PkgDir: filepath.Join(corpus.ModDir, "flows"), PkgPath: pkg,
-				Entry: pr.entry, Program: P, Fuel: 3000000, MaxStack: 40, AssertNames: pr.assert, CoverNames: pr.cover,
+				Entry: pr.entry, Program: P, GenMode: mode, GenKeep: keep, Fuel: 3000000, MaxStack: 40, AssertNames: pr.assert, CoverNames: pr.cover,
 				Setup: func(k *eng.Kernel) { eng.InstallL2(k, pkg) }})
 		}
 	}
